@@ -2,6 +2,7 @@ SPECIFICATION Spec
 CONSTANTS
   CheckTrailer = TRUE
   UpdateWatchdog = FALSE
+  WaitOrigins = FALSE
   Bound = 1
   NOrigs = {0}
   Intfs = {"keep", "none", "direct", "recursive"}
